@@ -208,8 +208,26 @@ class Engine:
         self.lemmas_used = set()
 
     def verify_function(self, qualname):
-        ex = FnExec(self, qualname)
-        return ex.run()
+        c = self.contracts[qualname]
+        if not c.variants:
+            ex = FnExec(self, qualname)
+            return ex.run()
+        first = None
+        for label, shape in c.variants:
+            ex = FnExec(self, qualname)
+            ex.variant = shape
+            ex.run()
+            for o in ex.obls:
+                o.name = o.name.replace(qualname + "/", f"{qualname}/{label}:", 1)
+            ex.unsupported = [f"{label}: {u}" for u in ex.unsupported]
+            if first is None:
+                first = ex
+            else:
+                first.obls += ex.obls
+                first.unsupported += ex.unsupported
+                first.paths += ex.paths
+                first.requires_sat = first.requires_sat and ex.requires_sat
+        return first
 
     def bare_exec(self, label, modname="betterproto"):
         ex = FnExec.__new__(FnExec)
@@ -479,7 +497,7 @@ class FnExec:
             # heap state (stream.data ...) and locals are the exit ones; old(...) gives the entry heap
             pst = st.clone()
             for p in self.c.types:
-                if p in self.entry.env and self.entry.env[p].kind not in ("vmdict", "mmdict", "gclocal", "arr", "ref"):
+                if p in self.entry.env and self.entry.env[p].kind not in ("vmdict", "mmdict", "gclocal", "arr", "ref", "strset"):
                     pst.env[p] = self.entry.env[p]      # (mutable containers denote their exit state)
             for name, e in self.c.ensures:
                 g = self.truth(self.ev_spec(e, pst, result=res))
@@ -1232,6 +1250,20 @@ class FnExec:
                     return self.resolve_global(imp[2], tmi)
                 except FileNotFoundError:
                     pass
+            if imp[0] == "from" and not imp[1].startswith("."):
+                # `from betterproto import casing` : a module of the repository
+                for cand in (f"{imp[1]}.{imp[2]}",):
+                    try:
+                        front.load_module(cand)
+                        return SV("func", ("module", cand))
+                    except FileNotFoundError:
+                        pass
+                try:
+                    tmi = front.load_module(imp[1])
+                    if imp[2] in tmi.functions or imp[2] in tmi.classes or imp[2] in tmi.assigns:
+                        return self.resolve_global(imp[2], tmi)
+                except FileNotFoundError:
+                    pass
             return SV("func", ("builtin", self.import_name(imp)))
         if self.eng.spec.has(n):
             return SV("func", ("spec", n))
@@ -1293,8 +1325,30 @@ class FnExec:
                 yield st2, (vs if isinstance(vs, Raised) else SV("cdict", list(zip(ks, vs))))
 
     def e_JoinedStr(self, node, st):
-        # f-strings only occur as exception messages in the proved subset
-        yield st, SV("const", "<f-string>")
+        """f-strings: exact for str pieces without conversion / format spec; anything else (exception messages with
+        !r, numbers ...) yields an opaque text"""
+        parts = []
+        for v in node.values:
+            if isinstance(v, ast.Constant) and isinstance(v.value, str):
+                parts.append(z3.StringVal(v.value))
+            elif isinstance(v, ast.FormattedValue) and v.conversion == -1 and v.format_spec is None:
+                try:
+                    sv = self.ev1(v.value, st)
+                except Unsupported:
+                    sv = None
+                if sv is None or sv.kind != "str":
+                    yield st, SV("const", "<f-string>")
+                    return
+                parts.append(sv.t)
+            else:
+                yield st, SV("const", "<f-string>")
+                return
+        if not parts:
+            yield st, sv_str("")
+        elif len(parts) == 1:
+            yield st, sv_str(parts[0])
+        else:
+            yield st, sv_str(z3.Concat(*parts))
 
     def e_IfExp(self, node, st):
         for st1, c in self.ev_cond(node.test, st):
@@ -1775,6 +1829,9 @@ class FnExec:
                 yield st, v.t[attr]
                 return
             raise Unsupported(f"record has no attribute {attr}")
+        if v.kind == "func" and v.t[0] == "module":
+            yield st, self.resolve_global(attr, front.load_module(v.t[1]))
+            return
         if v.kind == "func" and v.t[0] == "builtin":
             yield st, SV("func", ("builtin", f"{v.t[1]}.{attr}"))
             return
@@ -1949,6 +2006,8 @@ class FnExec:
         if c.inline:
             yield from self.inline_call(c, mi, q, fn_node, bound, st)
             return
+        if c.assumed:
+            self.eng.assumptions_used.add(f"ASSUMED CONTRACT {qualname}: " + "; ".join(e for _, e in c.ensures))
         if c.generator:
             # calling a generator function only creates the generator; its step contract is applied by the
             # consuming for-loop (loop_cut)
